@@ -79,7 +79,8 @@ def history(ctx, steps):
                 elif r != len(before):
                     ctx.violation('C14:not-bottom', f'new variable got level {r}, expected {len(before)}', M.case())
             else:
-                l = rng.randrange(0, len(cur) + 2)
+                # mostly legal or conflicting levels; a gap (known finding, ends the history) rarely
+                l = rng.randrange(0, len(cur) + 1) if rng.random() < 0.9 else len(cur) + 1
                 before = dict(M.b.vars)
                 r = s.op(0, 'add_var', v, l)
                 if vname(v) in before:
@@ -95,9 +96,12 @@ def history(ctx, steps):
                                       f'add_var({v}, {l}) accepted with {len(before)} variables declared', M.case())
                         return
         elif k < 0.5 and cur:
-            n = len(cur)
+            # functions over a random subset of the declared variables, so that
+            # some variables stay unused
+            sub_ = [v for v in cur if rng.random() < 0.6] or cur[:1]
+            n = len(sub_)
             t = rng.getrandbits(1 << n)
-            u = gen.build_tt(s, 0, t, cur)
+            u = gen.build_tt(s, 0, t, sub_)
             if u is not None and abs(u) != 1:
                 s.op(0, 'incref', u)
                 held.setdefault(u, 0)
@@ -121,7 +125,11 @@ def history(ctx, steps):
                 pass
             full_levels = {i for i, _, _ in M.b._succ.values()}
             unused = {v for v in cur if M.b.vars[vname(v)] not in full_levels}
-            sub = [v for v in NAMES if rng.random() < 0.35]
+            if rng.random() < 0.6 and unused:
+                # a subset of the removable variables (the call must succeed)
+                sub = [v for v in sorted(unused) if rng.random() < 0.6]
+            else:
+                sub = [v for v in NAMES if rng.random() < 0.35]
             r = s.op(0, 'undeclare', sub)
             ctx.count('undeclare')
             bad = [v for v in sub if v not in cur or v not in unused]
@@ -157,5 +165,6 @@ def history(ctx, steps):
 
 def run(ctx):
     q = ctx.quick
+    gen.undeclare_scenarios(ctx, 'C14:not-canonical', 'C14', quick=q)
     for _ in range(40 if q else 400):
         history(ctx, 30 if q else 60)
